@@ -17,6 +17,8 @@ func AllMonitors() []Monitor {
 		&MonC05{},
 		&MonC06{},
 		&MonC07{},
+		&MonC08{},
+		&MonC09{},
 	}
 }
 
@@ -28,6 +30,8 @@ func init() {
 	Plans["C05"] = planC05
 	Plans["C06"] = planC06
 	Plans["C07"] = planC07
+	Plans["C08"] = planC08
+	Plans["C09"] = planC09
 }
 
 func (w *World) setupCommon(hostedChance int) {
@@ -157,4 +161,48 @@ func planC07(w *World, spec RunSpec) {
 	w.StartProcesses()
 	w.Disturb(w.Cfg.Ndist)
 	w.finish()
+}
+
+func planC08(w *World, spec RunSpec) {
+	s := w.Scn
+	w.setupCommon(6)
+	w.drawFaultMix("err-before", "lost-response", "crash", "compaction", "duplicate")
+	w.Cfg.Faults["drift"] = true
+	w.Cfg.Ndist = 150 + s.Intn(600, "ndist")
+	w.Scenario = GenOD(w, ODProfile{MaxEdits: 5, Limits: true, NeverReady: !s.Chance(1, 4, "all-ready"), Delegation: s.Chance(1, 4, "delegation")})
+	w.StartProcesses()
+	w.Disturb(w.Cfg.Ndist)
+	w.finish()
+}
+
+func planC09(w *World, spec RunSpec) {
+	s := w.Scn
+	w.setupCommon(4)
+	w.drawFaultMix("err-before", "lost-response", "crash", "compaction", "duplicate")
+	w.Cfg.Faults["drift"] = true
+	w.Cfg.Ndist = 100 + s.Intn(500, "ndist")
+	if s.Bool("family-od") {
+		w.Scenario = GenOD(w, ODProfile{MaxEdits: 6, Pause: true, Limits: true, NeverReady: s.Bool("never-ready"), Delegation: s.Bool("delegation")})
+	} else {
+		w.Scenario = GenOS(w, OSProfile{MaxSets: 3, Delegation: true, Lifecycle: true, LateCreate: true, Intruder: "granular", NoForge: true, Preexisting: 2})
+		ensurePauseOp(w)
+	}
+	w.StartProcesses()
+	w.Disturb(w.Cfg.Ndist)
+	w.finish()
+}
+
+func ensurePauseOp(w *World) {
+	sc := w.Scenario
+	g := sc.Facts["os"].(*OSGen)
+	for _, op := range sc.UserOps {
+		if len(op.Label) > 5 && op.Label[:5] == "pause" {
+			return
+		}
+	}
+	name := g.Names[w.Scn.Intn(len(g.Names), "pause-target")]
+	key := store.Key{Group: PKOGroup, Kind: g.Kind, Namespace: g.NS, Name: name}
+	op := UserOp{Label: "pause " + name, Do: func(w *World) { setLifecycle(w, key, "Paused") }}
+	at := w.Scn.Intn(len(sc.UserOps)+1, "pause-at")
+	sc.UserOps = append(sc.UserOps[:at], append([]UserOp{op}, sc.UserOps[at:]...)...)
 }
